@@ -160,6 +160,60 @@ End Cells.
 Arguments ld_s {br bl flg}. Arguments ld_o {br bl flg}. Arguments ld_pc {br bl flg}. Arguments ld_dep {br bl flg}.
 Arguments st_pc {br bl flg}. Arguments st_dep {br bl flg}. Arguments st_mark {br bl flg}. Arguments ld_mark {br bl flg}. Arguments rs_state {br bl flg}.
 
+(* ------------------------------------------------------------------ results of re_rec; saving and restoring the state *)
+Section Post.
+  Variables (br bl : nat) (flg : Z).
+  Definition out_ok (o : out st) : Prop := match o with Found _ _ | Fail => True | _ => False end.
+  Definition ret_of (o : out st) : Z := match o with Found _ _ => 0 | _ => 1 end.
+  (* the memory after a call of re_rec: the state block replaced, the saved states of the forks appended; on success the
+     block holds the model's final state *)
+  Definition post (m : mem) (o : out st) (m' : mem) : Prop :=
+    exists extra p' marks' pc' dep', m' = upd m br (rs_cells bl p' marks' pc' flg dep') ++ extra /\ length marks' = 128%nat /\
+      match o with Found _ s => s = (p', marks') | _ => True end.
+  Lemma post_shift m A E o m' : (br < length m)%nat -> post (upd (m ++ E) br A) o m' -> post m o m'.
+  Proof.
+    intros Hb [extra [p' [marks' [pc' [dep' [Hm' [Hl Ho]]]]]]].
+    exists (E ++ extra), p', marks', pc', dep'. split; [|split; assumption].
+    rewrite Hm'. rewrite upd_upd by (rewrite app_length; lia). rewrite upd_app_mem by exact Hb. rewrite app_assoc. reflexivity.
+  Qed.
+  Lemma post_shift0 m A o m' : (br < length m)%nat -> post (upd m br A) o m' -> post m o m'.
+  Proof. intros Hb Hp. apply (post_shift m A [] o m' Hb). rewrite app_nil_r. exact Hp. Qed.
+  Lemma post_self m R o : nth_error m br = Some R ->
+    (exists p' marks' pc' dep', R = rs_cells bl p' marks' pc' flg dep' /\ length marks' = 128%nat /\
+       match o with Found _ s => s = (p', marks') | _ => True end) -> post m o m.
+  Proof.
+    intros Hm [p' [marks' [pc' [dep' [-> [Hl Ho]]]]]]. exists [], p', marks', pc', dep'. split; [|split; assumption].
+    rewrite app_nil_r. symmetry. apply upd_self. exact Hm.
+  Qed.
+
+  Lemma memcpy_save (m : mem) (R : block) : nth_error m br = Some R -> length R = 133%nat ->
+    do_builtin_m BMemcpy [VPtr (length m) 0; VPtr br 0; VInt 133] (m ++ [repeat VUndef (Z.to_nat 133)]) = Ok (VPtr (length m) 0, m ++ [R]).
+  Proof.
+    intros Hm HR. assert (Hb : (br < length m)%nat) by (apply nth_error_Some; congruence).
+    rewrite (memcpy_ok _ (length m) 0 br 0 133 (repeat VUndef (Z.to_nat 133)) R); try lia.
+    - change (Z.to_nat 0) with 0%nat. change (Z.to_nat 133) with 133%nat. rewrite firstn_skipn0_all by exact HR.
+      rewrite put_cells_all by (rewrite repeat_length; exact HR). rewrite upd_app_new. reflexivity.
+    - apply nth_error_app_new.
+    - rewrite nth_error_app_old by exact Hb. exact Hm.
+    - rewrite repeat_length. lia.
+  Qed.
+  Lemma memcpy_restore (m : mem) (R R' : block) (E : list block) : (br < length m)%nat -> length R = 133%nat -> length R' = 133%nat ->
+    do_builtin_m BMemcpy [VPtr br 0; VPtr (length m) 0; VInt 133] (upd m br R' ++ R :: E) = Ok (VPtr br 0, upd m br R ++ R :: E).
+  Proof.
+    intros Hb HR HR'.
+    assert (Hd : nth_error (upd m br R' ++ R :: E) br = Some R').
+    { rewrite nth_error_app1 by (rewrite upd_length; exact Hb). apply mem_upd_same. exact Hb. }
+    assert (Hs : nth_error (upd m br R' ++ R :: E) (length m) = Some R).
+    { rewrite nth_error_app2 by (rewrite upd_length; [lia|exact Hb]). rewrite upd_length by exact Hb. rewrite Nat.sub_diag. reflexivity. }
+    rewrite (memcpy_ok _ br 0 (length m) 0 133 R' R Hd Hs); try lia.
+    change (Z.to_nat 0) with 0%nat. change (Z.to_nat 133) with 133%nat. rewrite firstn_skipn0_all by exact HR.
+    rewrite put_cells_all by lia. rewrite upd_app_mem by (rewrite upd_length; exact Hb). rewrite upd_upd by exact Hb. reflexivity.
+  Qed.
+
+End Post.
+Arguments post_shift {br bl flg}. Arguments post_shift0 {br bl flg}. Arguments post_self {br bl flg}.
+Arguments memcpy_save {br}. Arguments memcpy_restore {br}.
+
 Section ReRec.
   Variables (bre bp br bl : nat) (P : list instr) (cflg flg : Z) (line : bytes) (fuel : nat).
   Hypothesis Hbre : br <> bre.
@@ -345,13 +399,7 @@ Section ReRec.
   Qed.
 
   (* ---------------------------------------------------------------- RI_FORK: save, recurse, restore *)
-  Definition out_ok (o : out st) : Prop := match o with Found _ _ | Fail => True | _ => False end.
-  Definition ret_of (o : out st) : Z := match o with Found _ _ => 0 | _ => 1 end.
-  (* the memory after a call of re_rec: the state block replaced, the saved states of the forks appended; on success the
-     block holds the model's final state *)
-  Definition post (m : mem) (o : out st) (m' : mem) : Prop :=
-    exists extra p' marks' pc' dep', m' = upd m br (rs_cells bl p' marks' pc' flg dep') ++ extra /\ length marks' = 128%nat /\
-      match o with Found _ s => s = (p', marks') | _ => True end.
+  Notation post := (post br bl flg).
   Notation mrec := (ReVM.rec st (atom_step flg line) mark_step P).
   (* what a call of re_rec at call depth cd does when the model runs at depth dm (rs->dep = NDEPT - dm) *)
   Definition rec_spec (cd dm : nat) : Prop := forall m pc p marks o c,
@@ -359,46 +407,6 @@ Section ReRec.
     length marks = 128%nat -> (p <= length line)%nat ->
     mrec dm pc (p, marks) = (o, c) -> out_ok o ->
     exists m', callf cprog fuel cd F_re_rec [VPtr bre 0; VPtr br 0] m = Ok (VInt (ret_of o), m') /\ post m o m'.
-
-  Lemma post_shift m A E o m' : (br < length m)%nat -> post (upd (m ++ E) br A) o m' -> post m o m'.
-  Proof.
-    intros Hb [extra [p' [marks' [pc' [dep' [Hm' [Hl Ho]]]]]]].
-    exists (E ++ extra), p', marks', pc', dep'. split; [|split; assumption].
-    rewrite Hm'. rewrite upd_upd by (rewrite app_length; lia). rewrite upd_app_mem by exact Hb. rewrite app_assoc. reflexivity.
-  Qed.
-  Lemma post_shift0 m A o m' : (br < length m)%nat -> post (upd m br A) o m' -> post m o m'.
-  Proof. intros Hb Hp. apply (post_shift m A [] o m' Hb). rewrite app_nil_r. exact Hp. Qed.
-  Lemma post_self m R o : nth_error m br = Some R ->
-    (exists p' marks' pc' dep', R = rs_cells bl p' marks' pc' flg dep' /\ length marks' = 128%nat /\
-       match o with Found _ s => s = (p', marks') | _ => True end) -> post m o m.
-  Proof.
-    intros Hm [p' [marks' [pc' [dep' [-> [Hl Ho]]]]]]. exists [], p', marks', pc', dep'. split; [|split; assumption].
-    rewrite app_nil_r. symmetry. apply upd_self. exact Hm.
-  Qed.
-
-  Lemma memcpy_save (m : mem) (R : block) : nth_error m br = Some R -> length R = 133%nat ->
-    do_builtin_m BMemcpy [VPtr (length m) 0; VPtr br 0; VInt 133] (m ++ [repeat VUndef (Z.to_nat 133)]) = Ok (VPtr (length m) 0, m ++ [R]).
-  Proof.
-    intros Hm HR. assert (Hb : (br < length m)%nat) by (apply nth_error_Some; congruence).
-    rewrite (memcpy_ok _ (length m) 0 br 0 133 (repeat VUndef (Z.to_nat 133)) R); try lia.
-    - change (Z.to_nat 0) with 0%nat. change (Z.to_nat 133) with 133%nat. rewrite firstn_skipn0_all by exact HR.
-      rewrite put_cells_all by (rewrite repeat_length; exact HR). rewrite upd_app_new. reflexivity.
-    - apply nth_error_app_new.
-    - rewrite nth_error_app_old by exact Hb. exact Hm.
-    - rewrite repeat_length. lia.
-  Qed.
-  Lemma memcpy_restore (m : mem) (R R' : block) (E : list block) : (br < length m)%nat -> length R = 133%nat -> length R' = 133%nat ->
-    do_builtin_m BMemcpy [VPtr br 0; VPtr (length m) 0; VInt 133] (upd m br R' ++ R :: E) = Ok (VPtr br 0, upd m br R ++ R :: E).
-  Proof.
-    intros Hb HR HR'.
-    assert (Hd : nth_error (upd m br R' ++ R :: E) br = Some R').
-    { rewrite nth_error_app1 by (rewrite upd_length; exact Hb). apply mem_upd_same. exact Hb. }
-    assert (Hs : nth_error (upd m br R' ++ R :: E) (length m) = Some R).
-    { rewrite nth_error_app2 by (rewrite upd_length; [lia|exact Hb]). rewrite upd_length by exact Hb. rewrite Nat.sub_diag. reflexivity. }
-    rewrite (memcpy_ok _ br 0 (length m) 0 133 R' R Hd Hs); try lia.
-    change (Z.to_nat 0) with 0%nat. change (Z.to_nat 133) with 133%nat. rewrite firstn_skipn0_all by exact HR.
-    rewrite put_cells_all by lia. rewrite upd_app_mem by (rewrite upd_length; exact Hb). rewrite upd_upd by exact Hb. reflexivity.
-  Qed.
 
   Lemma body_fork dm m p marks pc a1 a2 v2 v3 lf o1 c1 : rec_spec D dm -> frame m -> (pc < length P)%nat ->
     nth_error m br = Some (rs_cells bl p marks (Z.of_nat pc) flg (256 - Z.of_nat dm)) -> length marks = 128%nat -> (p <= length line)%nat ->
@@ -791,10 +799,15 @@ Section PsubLoop.
   Variables (v0 : val) (nsub : Z) (p : nat) (M : list Z) (pc dep : Z) (pcells : list val).
   Hypothesis Hnsub : 0 <= nsub /\ nsub * 2 <= 2147483647.
   Hypothesis Hne : bps <> br.
-  Hypothesis HM : ints_ok M.
+  Hypothesis HM : ints_ok (firstn (Nat.min 128 (2 * Z.to_nat nsub)) M).   (* only the marks that are read *)
   Hypothesis Hlen : length M = 128%nat.
   Hypothesis Hpl : (2 * Z.to_nat nsub <= length pcells)%nat.
   Let ns := Z.to_nat nsub.
+  Lemma nth_read j : (j < Nat.min 128 (2 * ns))%nat -> -2147483648 <= nth j M 0 <= 2147483647.
+  Proof.
+    intro Hj. pose proof (nthz_ok _ (Z.of_nat j) HM) as X. unfold nthz in X. rewrite Nat2Z.id in X.
+    rewrite <- (firstn_skipn (Nat.min 128 (2 * ns)) M). rewrite app_nth1 by (rewrite firstn_length; lia). exact X.
+  Qed.
 
   Lemma psub_loop_ok : forall k i m lf, (ns - i = k)%nat -> (i <= ns)%nat ->
     nth_error m br = Some (rs_cells bl p M pc flg dep) ->
@@ -818,17 +831,13 @@ Section PsubLoop.
       (* the value of one field: the mark if its index is below LEN(rs->mark), else -1 *)
       set (so := if Nat.ltb (i * 2) nmarks then nth (i * 2) M (-1) else -1).
       set (eo := if Nat.ltb (i * 2) nmarks then nth (i * 2 + 1) M (-1) else -1).
-      assert (Hnth : forall j, (j < 128)%nat -> wrap I32 (nth j M 0) = nth j M (-1)).
-      { intros j Hj. rewrite (nth_indep M 0 (-1)) by lia. apply wrap_I32_id.
-        pose proof (nthz_ok M (Z.of_nat j) HM) as X. unfold nthz in X. rewrite Nat2Z.id in X. rewrite (nth_indep M (-1) 0) by lia. exact X. }
+      assert (Hi2 : (i * 2 + 1 < 2 * ns)%nat) by (unfold ns; lia).
+      assert (Hnth : forall j, (j < Nat.min 128 (2 * ns))%nat -> wrap I32 (nth j M 0) = nth j M (-1) /\ -2147483648 <= nth j M (-1) <= 2147483647).
+      { intros j Hj. pose proof (nth_read j Hj) as X. rewrite (nth_indep M 0 (-1)) in * by lia. split; [apply wrap_I32_id; exact X|exact X]. }
       assert (Hso : -2147483648 <= so <= 2147483647).
-      { unfold so. destruct (Nat.ltb_spec (i * 2) nmarks) as [L|L]; [|lia]. change nmarks with 128%nat in L.
-        rewrite <- (Hnth _ L). pose proof (nthz_ok M (Z.of_nat (i * 2)) HM) as X. unfold nthz in X. rewrite Nat2Z.id in X.
-        rewrite wrap_I32_id by exact X. exact X. }
+      { unfold so. destruct (Nat.ltb_spec (i * 2) nmarks) as [L|L]; [|lia]. change nmarks with 128%nat in L. apply Hnth. lia. }
       assert (Heo : -2147483648 <= eo <= 2147483647).
-      { unfold eo. destruct (Nat.ltb_spec (i * 2) nmarks) as [L|L]; [|lia]. change nmarks with 128%nat in L.
-        rewrite <- (Hnth (i * 2 + 1)%nat) by lia. pose proof (nthz_ok M (Z.of_nat (i * 2 + 1)) HM) as X. unfold nthz in X. rewrite Nat2Z.id in X.
-        rewrite wrap_I32_id by exact X. exact X. }
+      { unfold eo. destruct (Nat.ltb_spec (i * 2) nmarks) as [L|L]; [|lia]. change nmarks with 128%nat in L. apply Hnth. lia. }
       rewrite (chk_I32 (Z.of_nat i * 2)) by lia. xstep.
       change (if 4 =? 0 then Err EDivZero else chk U64 (512 ÷ 4)) with (@Ok Z 128). xstep.
       rewrite (wrap_U64_id (Z.of_nat i * 2)) by lia.
@@ -849,7 +858,7 @@ Section PsubLoop.
          else Ok (VInt (-1), mkst lo mm)) = Ok (VInt so, mkst lo mm)).
       { intros mm Hmm lo. unfold so. destruct (Nat.ltb_spec (i * 2) nmarks) as [L|L]; [|reflexivity]. change nmarks with 128%nat in L.
         replace (Z.of_nat i * 2) with (Z.of_nat (i * 2)) by lia. rewrite (ld_mark mm p M pc dep Hmm Hlen (i * 2)) by lia.
-        cbn [bind]. rewrite Hnth by lia. reflexivity. }
+        cbn [bind]. rewrite (proj1 (Hnth (i * 2)%nat ltac:(lia))). reflexivity. }
       assert (V2 : forall mm, nth_error mm br = Some (rs_cells bl p M pc flg dep) -> forall lo, 
         (if Nat.ltb (i * 2) nmarks
          then do c <- load mm br (0 + 1 * 2 + 1 * (Z.of_nat i * 2 + 1));
@@ -861,7 +870,7 @@ Section PsubLoop.
          else Ok (VInt (-1), mkst lo mm)) = Ok (VInt eo, mkst lo mm)).
       { intros mm Hmm lo. unfold eo. destruct (Nat.ltb_spec (i * 2) nmarks) as [L|L]; [|reflexivity]. change nmarks with 128%nat in L.
         replace (Z.of_nat i * 2 + 1) with (Z.of_nat (i * 2 + 1)) by lia. rewrite (ld_mark mm p M pc dep Hmm Hlen (i * 2 + 1)) by lia.
-        cbn [bind]. rewrite Hnth by lia. reflexivity. }
+        cbn [bind]. rewrite (proj1 (Hnth (i * 2 + 1)%nat ltac:(lia))). reflexivity. }
       xstep; rewrite ?(chk_I32 (Z.of_nat i * 2)) by lia; xstep.
       change (chk I32 (- (1))) with (@Ok Z (-1)). xstep.
       rewrite (V1 m Hm). xstep. rewrite !(wrap_I64_small so) by exact Hso.
@@ -891,3 +900,77 @@ Section PsubLoop.
       unfold rm_psub_loop in X; cbn [fn_body cf_re_recmatch] in X. rewrite X. rewrite upd_upd by exact Hbps. reflexivity.
   Qed.
 End PsubLoop.
+
+(* ------------------------------------------------------------------ re_recmatch = ReVM.re_recmatch + psub_of *)
+Theorem tr_re_recmatch bre bp br bl bps P cflg flg line fuel :
+  br <> bre -> br <> bp -> br <> bl -> (length cglobals <= br)%nat -> bytes_lt256 line -> -2147483648 <= flg <= 2147483647 ->
+  (length line < fuel)%nat -> (cls_fuel <= fuel)%nat -> Z.of_nat (length line) < 2147483647 -> Z.of_nat (length P) < 2147483647 ->
+  prog_closed P -> (length P < fuel)%nat -> bps <> br -> (0 < length P)%nat -> (128 < fuel)%nat ->
+  forall m p marks pc0 dep0 nsub pcells e o c,
+  frame bre bp br bl P cflg line fuel m -> nth_error m br = Some (rs_cells bl p marks pc0 flg dep0) -> length marks = 128%nat ->
+  (p <= length line)%nat -> nth_error m bps = Some pcells -> 0 <= nsub -> nsub * 2 <= 2147483647 ->
+  (2 * Z.to_nat nsub <= length pcells)%nat -> (Z.to_nat nsub < fuel)%nat ->
+  ReVM.re_recmatch 256 P flg line p = (o, c) -> out_ok o ->
+  exists m', callf cprog fuel (S (S (S (S (S (S (S (S (256 + e))))))))) F_re_recmatch [VPtr bre 0; VPtr br 0; VInt nsub; VPtr bps 0] m
+             = Ok (VInt (ret_of o), m') /\
+  exists extra p' M' pc' dep', length M' = 128%nat /\
+    match o with
+    | Found _ r => p' = fst r /\ agree (Nat.min 128 (2 * Z.to_nat nsub)) (snd r) M' /\
+        m' = upd (upd m br (rs_cells bl p' M' pc' flg dep') ++ extra) bps
+                 (tab_block (psub_of (snd r) (Z.to_nat nsub)) ++ skipn (2 * Z.to_nat nsub) pcells)
+    | _ => m' = upd m br (rs_cells bl p' M' pc' flg dep') ++ extra
+    end.
+Proof.
+  intros H1 H2 H3 H4 H5 H6 H7 H8 H9 H10 H11 H12 Hbps HP0 H128 m p marks pc0 dep0 nsub pcells e o c F Hm Hlen Hpl Hps Hn0 Hn2 Hpc Hnf Hr Hok.
+  assert (Hb : (br < length m)%nat) by apply F.
+  assert (Hbb : (bps < length m)%nat) by (apply nth_error_Some; congruence).
+  set (n := Nat.min 128 (2 * Z.to_nat nsub)).
+  assert (En : Nat.min 128 (Z.to_nat (nsub * 2)) = n) by (unfold n; f_equal; lia).
+  set (marks1 := fill_marks marks 0 n).
+  assert (Hlen1 : length marks1 = 128%nat) by (unfold marks1; rewrite fill_marks_length; exact Hlen).
+  (* the run from the marks the C text really starts with takes the same decisions *)
+  pose proof (rec_agree flg line P n 256 0 p (repeat (-1) 128) marks1 (fill_marks_agree marks n Hlen ltac:(unfold n; lia))) as Hag.
+  unfold ReVM.re_recmatch in Hr. change nmarks with 128%nat in Hr. rewrite Hr in Hag.
+  destruct (ReVM.rec st (atom_step flg line) mark_step P 256 0 (p, marks1)) as [o1 c1] eqn:Hr1.
+  destruct Hag as [_ Hag]. cbn [fst snd] in Hag.
+  assert (Hok1 : out_ok o1) by (destruct o, o1; try contradiction; exact I).
+  enter F_re_recmatch cf_re_recmatch. xstep. wrap_const.
+  rewrite (st_pc m p marks pc0 dep0 Hm Hlen). xstep.
+  rewrite (st_dep _ p marks 0 dep0 (mem_upd_same m br _ Hb) Hlen). xstep. rewrite upd_upd by exact Hb.
+  change (wrap I32 0) with 0.
+  set (cd := S (S (S (S (S (S (S (256 + e)))))))).
+  assert (Hm0 : nth_error (upd m br (rs_cells bl p marks 0 flg 0)) br = Some (rs_cells bl p marks 0 flg 0)) by (apply mem_upd_same; exact Hb).
+  pose proof (init_loop_ok br bl flg (callf cprog fuel cd) (VPtr bre 0) (VPtr bps 0) nsub p 0 0 (conj Hn0 Hn2) n 0%nat _ marks fuel
+                ltac:(rewrite En; lia) ltac:(lia) Hm0 Hlen ltac:(unfold n; lia)) as X.
+  rewrite En in X. change (Z.of_nat 0) with 0 in X. unfold rm_init_loop in X; cbn [fn_body cf_re_recmatch] in X. rewrite X. clear X.
+  rewrite upd_upd by exact Hb. fold marks1. xstep.
+  (* the call of re_rec *)
+  set (R1 := rs_cells bl p marks1 0 flg 0).
+  assert (F1 : frame bre bp br bl P cflg line fuel (upd m br R1)) by (apply frame_upd; assumption).
+  assert (Hm1 : nth_error (upd m br R1) br = Some (rs_cells bl p marks1 (Z.of_nat 0) flg (256 - Z.of_nat 256))) by (apply mem_upd_same; exact Hb).
+  destruct (tr_re_rec bre bp br bl P cflg flg line fuel H1 H2 H3 H4 H5 H6 H7 H8 H9 H10 H11 H12 256 e ltac:(lia)
+              (upd m br R1) 0%nat p marks1 o1 c1 F1 HP0 Hm1 Hlen1 Hpl Hr1 Hok1) as [m3 [Hcall Hpost]].
+  fold cd in Hcall. rewrite Hcall. xstep.
+  apply (post_shift0 m R1 o1 m3 Hb) in Hpost.
+  destruct Hpost as [extra [p' [M' [pc' [dep' [Hm3 [HlM Hfin]]]]]]].
+  destruct o as [cs r| | |w]; cbn [out_ok ret_of] in *; try contradiction.
+  2:{ destruct o1; try contradiction. cbn [ret_of]. xstep. eexists. split; [reflexivity|]. exists extra, p', M', pc', dep'. split; [exact HlM|exact Hm3]. }
+  destruct o1 as [cs1 r1| | |w1]; try contradiction. destruct Hag as [_ [Hfst Hagr]]. subst r1. cbn [fst snd] in Hfst, Hagr.
+  cbn [ret_of]. xstep.
+  subst p'.
+  assert (Hm3b : nth_error m3 br = Some (rs_cells bl (fst r) M' pc' flg dep')).
+  { rewrite Hm3. rewrite nth_error_app1 by (rewrite upd_length; exact Hb). apply mem_upd_same. exact Hb. }
+  assert (Hm3p : nth_error m3 bps = Some (tab_block (psub_of M' 0) ++ skipn (2 * 0) pcells)).
+  { rewrite Hm3. rewrite nth_error_app1 by (rewrite upd_length; [exact Hbb|exact Hb]). rewrite mem_upd_other; [exact Hps|exact Hb|exact Hbps]. }
+  assert (Hinv : st_inv line r).
+  { apply (rec_inv flg line P 256 0 (p, repeat (-1) 128) cs r c H9); [|exact Hr]. split; [exact Hpl|]. apply Forall_forall. intros x Hx.
+    apply repeat_spec in Hx. subst x. lia. }
+  assert (HM' : ints_ok (firstn (Nat.min 128 (2 * Z.to_nat nsub)) M')).
+  { fold n. rewrite <- (proj2 Hagr). apply Forall_firstn'. apply Hinv. }
+  pose proof (psub_loop_ok br bl bps flg (callf cprog fuel cd) (VPtr bre 0) nsub (fst r) M' pc' dep' pcells (conj Hn0 Hn2) Hbps HM' HlM Hpc
+                (Z.to_nat nsub) 0%nat m3 fuel ltac:(lia) ltac:(lia) Hm3b Hm3p Hnf) as X.
+  change (Z.of_nat 0) with 0 in X. unfold rm_psub_loop in X; cbn [fn_body cf_re_recmatch] in X. rewrite X. clear X. xstep.
+  eexists. split; [reflexivity|]. exists extra, (fst r), M', pc', dep'. split; [exact HlM|]. split; [reflexivity|]. split; [exact Hagr|].
+  rewrite Hm3. rewrite (psub_of_agree (snd r) M' (Z.to_nat nsub) Hagr). reflexivity.
+Qed.
+Print Assumptions tr_re_recmatch.
